@@ -189,11 +189,16 @@ func (r *Run) Violate(clause, key, what string, cas any) {
 	defer r.mu.Unlock()
 	id := clause + "\x00" + key
 	r.seenViol[id]++
+	if r.seenViol[id] > 1 {
+		r.res.MoreViol++ // a repeat of a recorded (clause, key): folded
+		return
+	}
+	// keep at most 12 distinct keys per clause and shard so that one frequent
+	// defect family cannot crowd out the others; repeats of one key do not count
 	r.seenViol["\x01"+clause]++
-	// keep at most 6 witnesses per clause and shard so that one frequent
-	// defect cannot crowd out the others
-	if r.seenViol[id] > 1 || r.seenViol["\x01"+clause] > 6 || len(r.res.Violations) >= 120 {
+	if r.seenViol["\x01"+clause] > 12 || len(r.res.Violations) >= 200 {
 		r.res.MoreViol++
+		r.res.Counters["violations_dropped_beyond_the_per_clause_cap:"+clause]++
 		return
 	}
 	if len(what) > 600 {
